@@ -1116,6 +1116,8 @@ class EngineServer(object):
             req = decode_request(data, self.version)
             entry["decoded"] = True
             entry["operation"] = req.batch_items[0].operation.value.name
+            hv = req.request_header.protocol_version
+            entry["header_version"] = "%d.%d" % (hv.major, hv.minor)
         except Exception as ex:
             entry["decoded"] = False
             entry["error"] = "%s: %s" % (type(ex).__name__, str(ex)[:200])
@@ -1191,9 +1193,16 @@ def run_engine_script(case):
         c, sock = make_client(version, srv)
         returned = []
         for op, args in case["script"]:
+            if op == "set_version":
+                # the documented way to change the version of a live client: the kmip_version setter
+                version = args["version"]
+                c.kmip_version = VERSIONS[version]
+                srv.version = version
+                returned.append(None)
+                continue
             args = _subst(args, returned)
             n0 = len(srv.log)
-            st = {"op": op, "args": args}
+            st = {"op": op, "args": args, "client_version": version}
             try:
                 r = call_op(c, op, args)
                 if op in PROXY_ONLY:
